@@ -46,11 +46,47 @@ def expand_dots(e, fn):
     return sp.expand(e.xreplace(rep)) if rep else sp.expand(e)
 
 
+def rebind_effect(e, old, new):
+    """the same effect with the loop variable renamed (for fusing loops over the same range)"""
+    def sub(x):
+        if isinstance(x, Vec):
+            out = Vec()
+            for a, c in x.t.items():
+                a2 = (a[0],) + tuple(sp.expand(sp.sympify(i_).xreplace({old: new})) if not isinstance(i_, str) else i_ for i_ in a[1:])
+                out = out.add(Vec({a2: sp.sympify(c).xreplace({old: new})}))
+            return out
+        if isinstance(x, sp.Basic):
+            return x.xreplace({old: new})
+        return x
+    e2 = sym.Effect(e.target, tuple(sub(sp.sympify(k)) if not isinstance(k, str) else k for k in e.key), e.op, sub(e.value), e.guards, e.line, sub(e.delta) if e.delta is not None else None)
+    for attr in ("seq",):
+        if hasattr(e, attr):
+            setattr(e2, attr, getattr(e, attr))
+    return e2
+
+
+def increment_of(e):
+    """signed increment of an effect: its recorded delta, or - for a read-modify-write through a local
+    (acc = A[k]; acc += ...; A[k] = acc) - the stored value minus the slot's own value at iteration start"""
+    d = e.delta
+    if d is None and e.op == "=":
+        if isinstance(e.value, sp.Basic):
+            own = [a for a in e.value.atoms(sp.Indexed) if str(a.base).split("#")[0] == e.target and len(a.indices) == len(e.key)
+                   and all(sym.is_zero(i_ - k_) for i_, k_ in zip(a.indices, e.key))]
+            if len(own) == 1 and sym.is_zero(sp.diff(sp.expand(e.value), own[0]) - 1):
+                d = sp.expand(e.value - own[0])
+        elif isinstance(e.value, Vec):
+            own = [a for a in e.value.t if str(a[0]).split("#")[0] == e.target and len(a) - 1 == len(e.key) and all(sym.is_zero(sp.sympify(i_) - k_) for i_, k_ in zip(a[1:], e.key))]
+            if len(own) == 1 and sym.is_zero(e.value.t[own[0]] - 1):
+                d = e.value.add(Vec.atom(own[0]), -1)
+    return d
+
+
 def total_delta(effs):
     """sum of the signed increments of accumulating effects (Vec or scalar)"""
     tot = None
     for e in effs:
-        d = e.delta
+        d = increment_of(e)
         if d is None:
             raise Broken("effect on %s%s is not an accumulation with a known increment" % (e.target, e.key))
         tot = d if tot is None else (tot.add(d) if isinstance(d, Vec) else tot + d)
@@ -125,7 +161,26 @@ def check_class(chk, F, M, short, zero_rows=()):
         sysl = [L for L in rest if any(e.target == gtimes for e in L.effects)]
         if len(sysl) != 1:
             raise Broken("system-derivative loop not identified")
-        return seg[0], sysl[0], [L for L in rest if L is not sysl[0]]
+        Lsys = sysl[0]
+        # loop fission: a later pass over the same index range that only accumulates into the gradient outputs (no
+        # solver workspace) is the second half of the system-derivative loop; the rules see the two fused
+        outs_ = (inner, startg + ".", endg + ".", gtimes)
+        for B in list(rest):
+            if B is Lsys or B.inner or Lsys.inner:
+                continue
+            same = (sym.is_zero(sp.sympify(B.lo) - sp.sympify(Lsys.lo)) and B.hi is not None and Lsys.hi is not None and sym.is_zero(sp.sympify(B.hi) - sp.sympify(Lsys.hi))
+                    and B.cond_op == Lsys.cond_op and B.step == Lsys.step)
+            if same and B.effects and all(e.target == inner or e.target == gtimes or e.target.startswith(startg + ".") or e.target.startswith(endg + ".") for e in B.effects) and not B.carried and not Lsys.carried:
+                fused = sym.LoopSummary(Lsys.var, Lsys.lo, Lsys.cond, Lsys.step, Lsys.line)
+                fused.hi, fused.cond_op = Lsys.hi, Lsys.cond_op
+                fused.effects = list(Lsys.effects) + [rebind_effect(e, B.var, Lsys.var) for e in B.effects]
+                fused.locals, fused.inner, fused.carried = dict(Lsys.locals), [], {}
+                for attr in ("pos", "name", "is_comp"):
+                    if hasattr(Lsys, attr):
+                        setattr(fused, attr, getattr(Lsys, attr))
+                rest = [L for L in rest if L is not B]
+                Lsys = fused
+        return seg[0], Lsys, [L for L in rest if L is not sysl[0] and L is not Lsys]
 
     ex_s = M.expand_scalar
 
@@ -558,7 +613,7 @@ def check_r7(chk, F, M, f, I, env, gd, names, gtimes, gC, gT, cubic):
     ninc = 0
     for L in I.loops:
         for e in L.effects:
-            val = e.delta if e.delta is not None else e.value
+            val = increment_of(e) if increment_of(e) is not None else e.value
             if isinstance(val, Vec):
                 ninc += 1
                 for a in val.t:
